@@ -13,6 +13,7 @@ type Ctx struct {
 	Sim    *an.Sim
 	SimObs []*an.Oblig // E1 obligations (incl. lock order)
 	C      *an.Collector
+	PropID string // the property being built (scopes UNDECIDED simulator obligations)
 }
 
 // Floor is an anti-vacuity requirement: at least Min obligations must match.
@@ -35,7 +36,14 @@ type Prop struct {
 
 var registry = map[string]*Prop{}
 
-func register(p *Prop) { registry[p.ID] = p }
+func register(p *Prop) {
+	build := p.Build
+	p.Build = func(c *Ctx) []*an.Oblig {
+		c.PropID = p.ID
+		return build(c)
+	}
+	registry[p.ID] = p
+}
 
 func Get(id string) *Prop { return registry[id] }
 
@@ -49,9 +57,49 @@ func IDs() []string {
 }
 
 // sel filters E1 obligations.
+// undecidedScope: an UNDECIDED simulator obligation (state explosion, unresolved lock identity ...) about a function
+// belongs to the properties that depend on that function; it does not fail the checks of unrelated properties.
+// (C11 and C12 span the whole package.)
+var undecidedScope = map[string][]string{
+	"C01": {"(*Buffer)", "(*consumer)", "Range", "WaitCond", "Cleaner"},
+	"C02": {"(*Buffer)", "(*consumer)", "Range", "WaitCond", "Cleaner"},
+	"C03": {"(*Buffer)", "(*consumer)", "Range", "WaitCond", "Cleaner"},
+	"C04": {"(*Buffer)", "(*consumer)", "Range", "WaitCond", "Cleaner"},
+	"C05": {"(*Buffer)", "(*consumer)", "Range", "WaitCond", "Cleaner", "CombineContext"},
+	"C06": {"(*ChanPubSub)", "(*ChanCaster)", "NewChanPubSub", "NewChanCaster"},
+	"C07": {"(*ChanPubSub)", "(*ChanCaster)", "NewChanPubSub", "NewChanCaster"},
+	"C08": {"(*ChanPubSub)", "(*ChanCaster)", "NewChanPubSub", "NewChanCaster"},
+	"C09": {"(*Exclusive)", "Exclusive"},
+	"C10": {"(*Exclusive)", "Exclusive"},
+	"C13": {"(*Channel)", "NewChannel"},
+	"C14": {"(*Workers)"},
+	"C15": {"(*Notifier)", "valueOfNotifierTarget"},
+	"C16": {"CombineContext", "ConflatedContext", "ChainAfterFunc", "stopCallbackSlice"},
+	"C17": {"(*Worker)"},
+	"C18": {"ExponentialRetry", "FatalError", "fatalError", "init$"},
+	"C19": {"Call", "callable", "resolveArgs", "typesArgs", "typesInOut", "typeNilable", "NewCallable"},
+	"C20": {"LinearAttempt"},
+}
+
+func (c *Ctx) inUndecidedScope(o *an.Oblig) bool {
+	sc, has := undecidedScope[c.PropID]
+	if !has || o.Func == "" || o.Func == "-" {
+		return true
+	}
+	for _, s := range sc {
+		if strings.Contains(o.Func, s) {
+			return true
+		}
+	}
+	return false
+}
+
 func (c *Ctx) sel(pred func(o *an.Oblig) bool) []*an.Oblig {
 	var out []*an.Oblig
 	for _, o := range c.SimObs {
+		if o.Status == "undecided" && o.Rule != "ANCHOR" && !c.inUndecidedScope(o) {
+			continue
+		}
 		if pred(o) {
 			out = append(out, o)
 		}
